@@ -169,6 +169,9 @@ pub struct Knobs {
     /// buffer; the buffer reaches the destination when it is full, on force-output, on
     /// close-port and at the end of the program.
     pub buffer_cap: Option<usize>,
+    /// a write of at least 1024 characters may block for up to this many scheduler decisions
+    /// (a full pipe, a slow consumer) before each of its chunks reaches the port
+    pub stall_large_writes: Option<usize>,
     /// a flush resets the buffer cursor before (true) or after (false) it hands the data over
     pub flush_resets_first: bool,
 }
@@ -186,6 +189,8 @@ pub struct Runtime {
     pub contended: AtomicU64,
     /// names that are the target of a set! somewhere in the program: their reads can race
     assigned: StdMutex<std::collections::BTreeSet<String>>,
+    /// channel to the scheduler (stall requests)
+    pub sched: StdMutex<Option<Arc<crate::sched::Shared>>>,
 }
 
 /// One buffered character with its provenance: (char, file, printer call, writing thread).
@@ -232,7 +237,7 @@ const PROCEDURES: &[&str] = &[
     "newline", "string-append", "number->string", "make-recursive-mutex", "lock-mutex", "unlock-mutex", "list", "cons",
     "car", "cdr", "null?", "reverse", "append", "length", "for-each", "eq?", "eqv?", "string=?", "string-null?",
     "string-length", "zero?", "1+", "1-", "force-output", "flush-all-ports", "string?", "apply", "string-join", "make-hash-table", "hash-set!", "hash-ref", "hash-remove!", "hash-count",
-    "call-with-output-string", "vector", "vector-ref", "vector-length", "list-ref", "min", "max", "abs", "modulo", "remainder",
+    "call-with-output-string", "open-output-string", "get-output-string", "vector", "vector-ref", "vector-length", "list-ref", "min", "max", "abs", "modulo", "remainder",
 ];
 
 fn builtin_name(name: &str) -> Option<&'static str> {
@@ -349,6 +354,7 @@ impl Runtime {
             calls: AtomicU64::new(0),
             contended: AtomicU64::new(0),
             assigned: StdMutex::new(Default::default()),
+            sched: StdMutex::new(None),
         }
     }
 
@@ -469,6 +475,11 @@ impl Runtime {
         cuts.push(chars.len());
         let mut start = 0;
         for cut in cuts {
+            if self.concurrent && chars.len() >= 1024 {
+                if let (Some(n), Some(sh)) = (self.knobs.stall_large_writes, self.sched.lock().unwrap().as_ref()) {
+                    *sh.stall_request.lock().unwrap() = Some(n);
+                }
+            }
             self.point();
             self.ev(Ev::PortOp { thread: ctx.thread, port });
             match self.knobs.buffer_cap {
@@ -1271,6 +1282,19 @@ impl Runtime {
                     }
                 }
             }
+            "open-output-string" => {
+                let mut ports = self.ports.lock().unwrap();
+                let n = ports.len();
+                ports.push(PortSt { dest: format!("string:{n}"), open: true, buf: vec![], cursor: 0, capture: Some(String::new()) });
+                Ok(Val::Port(n))
+            }
+            "get-output-string" => match args.first() {
+                Some(Val::Port(p)) => match self.ports.lock().unwrap().get(*p).and_then(|x| x.capture.clone()) {
+                    Some(text) => s(&text),
+                    None => runtime("get-output-string: not a string port"),
+                },
+                other => runtime(format!("get-output-string: not a port: {other:?}")),
+            },
             "call-with-output-string" => {
                 let Some(f) = args.first() else { return runtime("call-with-output-string: missing procedure") };
                 let id = {
